@@ -70,7 +70,7 @@ func (g *RegexGen) class() string {
 }
 
 func (g *RegexGen) atom(d int) string {
-	switch rapid.IntRange(0, 11).Draw(g.T, "atom") {
+	switch rapid.IntRange(0, 13).Draw(g.T, "atom") {
 	case 0, 1, 2, 3:
 		return g.atomLit()
 	case 4:
@@ -93,6 +93,31 @@ func (g *RegexGen) atom(d int) string {
 		if d < 3 {
 			return g.pick("flags", "(?i:", "(?s:", "(?i)", "(?U:", "(?m:") + g.concat(d+1) + ifClose(g)
 		}
+	case 12:
+		// a repeated / dropped non-capturing group, possibly with captures under quantifiers
+		if d < 3 {
+			inner := g.alt(d + 1)
+			if rapid.IntRange(0, 2).Draw(g.T, "capIn") > 0 {
+				inner = "(" + g.atomLit() + ")" + g.pick("capq", "", "*", "+", "?", "*?", "+?", "??", "{2}", "{1,2}?") + inner
+			}
+			G := "(?:" + inner + ")"
+			switch rapid.IntRange(0, 5).Draw(g.T, "dupform") {
+			case 0:
+				return G + G + "*"
+			case 1:
+				return G + G
+			case 2:
+				return G + "{0}" + g.atomLit()
+			case 3:
+				return G + G + G
+			case 4:
+				return G + "{1}"
+			}
+			return G + "{0,1}"
+		}
+	case 11:
+		// escapes whose removal would change how the surrounding text is tokenised
+		return g.pick("escctx", `x{1\,2}`, `x{1\,}`, `[[\:alpha\:]]`, `[\:x\:]`, `a\{1\,2\}`, `x{2\,3}y`, `[[\=a\=]]`, `[a\-z]`, `[\^a]`, `(\?:a)`, `a\{2}`, `x{\,1}`, `[[\:digit\:]]+`, `\<a\>`, `(?\:a)`)
 	case 10:
 		// run of equal atoms
 		a := g.pick("runatom", "a", "x", " ", `\d`, "[a-z]", ".", "-", "0")
@@ -125,7 +150,7 @@ func (g *RegexGen) repeat(a string) string {
 	case 8:
 		return a + g.pick("rep", "{2}", "{1,2}", "{2,}", "{0,2}", "{3}")
 	case 9:
-		return a + g.pick("lazy", "*?", "+?", "??", "{1,}?", "{0,1}?")
+		return a + g.pick("lazy", "*?", "+?", "??", "{1,}?", "{0,1}?", "{1}?", "{0}?", "{2}?", "{0,}?", "{1,2}?")
 	case 10:
 		// x x* and friends
 		return a + a + "*"
